@@ -459,6 +459,39 @@ class MapValidate(PyValidator):
 
 
 @register
+class BaseEnumValidate(PyValidator):
+    """BaseEnum.validate (static enumeration): accepts exactly the members of self.values (one membership test), returns the
+    value itself, TraitError otherwise -- the clauses of validate_trait_enum on the C side."""
+    qualname = "BaseEnum.validate"
+    kind = "enum"
+    c_function = "validate_trait_enum"
+    assumptions = PyValidator.assumptions + ("`value in self.values` is the tuple's membership test: member / not a member; an exception of an element's __eq__ propagates on both sides and is not modelled",)
+
+    def configure(self, cx, I, ov):
+        PyValidator.configure(self, cx, I, ov)
+        self.member = z3.Bool("value_is_a_member")
+
+        def contains_hook(I2, cont, item, st, k):
+            if isinstance(cont, VElem) and cont.t.eq(self.values):
+                return k(VBool(self.member), st.gset("lookups", st.ghost.get("lookups", 0) + 1))
+            return None
+        cx.contains_hook = contains_hook
+
+    def fields(self, cx, ov):
+        self.values = z3.Const("the_values", Val)
+        return {"values": VElem(self.values), "name": cx.const("None")}
+
+    def spec(self, o, cx, ov, info):
+        return [("spec:accepts-iff-member-of-the-enumeration", o.accepted == self.member),
+                ("spec:stores-the-value-itself", z3.Implies(o.accepted, o.same(o.result, o.value))),
+                ("spec:rejection-is-TraitError", z3.Implies(z3.Not(o.accepted), o.trait_error))]
+
+    def post(self, cx, I, ov, info, kind, payload, st):
+        return PyValidator.post(self, cx, I, ov, info, kind, payload, st) + [
+            ("post:exactly-one-membership-test", z3.BoolVal(st.ghost.get("lookups", 0) == 1))]
+
+
+@register
 class MapInit(Contract):
     """Map.__init__ -- WHICH dictionary each side consults.  The compiled validator looks the value up in the dictionary of the
     fast_validate descriptor, the Python validate in self.map: the two agree for every history (the application may keep a
